@@ -406,4 +406,48 @@ def r2_8(ctx):
     borrow(ctx, r5_1, "R5.1", "R2.8", " [premise of style-carrying through wrap: tab expansion, append and join keep len() equal to the stored characters, so span offsets stay on their characters]")
 
 
-RULES = [r2_1, r2_2, r2_3, r2_4, r2_5, r2_6, r2_7, r2_8]
+def r2_10(ctx):
+    from .c05 import r5_11
+    from .common import borrow
+    borrow(ctx, r5_11, "R5.11", "R2.10", " [justification trims / pads wrapped lines: it must do so through span-aware methods, never by re-assigning a stripped plain string]")
+
+
+def r2_9(ctx):
+    ctx.rule("R2.9", "what is measured is what is printed: in divide_line every cell_len taken of the current word measures the word with at most its TRAILING whitespace removed (word, word.rstrip()) - leading whitespace (indentation, the gap after a folded word) is printed on the line and must count towards the fit test; measuring word.strip() / word.lstrip() lets an indented word overflow the line, and the final truncate then drops characters")
+    f = ctx.repo.fn("_wrap:divide_line")
+    m = f.module
+    aliases = alias_map(f.node)
+    wvars = set()
+    for x in walk_local(f.node):
+        if isinstance(x, ast.For) and isinstance(x.target, ast.Tuple) and len(x.target.elts) == 3 and isinstance(x.iter, ast.Call) and (call_name(x.iter) == "words" or "finditer" in norm(x.iter.func) or "match" in norm(x.iter.func)):
+            wvars.add(norm(x.target.elts[2]))
+    from ..astutil import single_defs as _sdf
+    for k, v in _sdf(f.node).items():
+        if isinstance(v, ast.Call) and isinstance(v.func, ast.Attribute) and v.func.attr == "group":
+            wvars.add(k)
+    if not wvars:
+        raise AnalysisError("divide_line: the loop variable holding the current word was not found")
+    n = 0
+    for x in walk_local(f.node):
+        if isinstance(x, ast.Call) and norm(expand_alias(x.func, aliases)) == "cell_len" and len(x.args) == 1:
+            a = x.args[0]
+            base, chain_ = a, []
+            while isinstance(base, ast.Call) and isinstance(base.func, ast.Attribute):
+                chain_.append(base.func.attr)
+                base = base.func.value
+            if not (isinstance(base, ast.Name) and base.id in wvars):
+                continue
+            n += 1
+            where = f"{m.relpath}:{x.lineno}"
+            bad = [c for c in chain_ if c in ("strip", "lstrip")]
+            unknown = [c for c in chain_ if c not in ("strip", "lstrip", "rstrip")]
+            if bad:
+                ctx.violation(f.fq, short(x), where, f"`{short(x)}` measures the word without its leading whitespace, which is printed: an indented first word ('   indented wordy' at width 9) passes the fit test, the line overflows and truncate() drops non-space characters")
+            elif unknown:
+                raise AnalysisError(f"divide_line: `{short(x)}` transforms the word with {unknown}; not decided")
+            else:
+                ctx.ok(where, f"`{short(x)}` measures the printed word", f.fq)
+    ctx.floor(n, 2, "measurements of the current word in divide_line")
+
+
+RULES = [r2_1, r2_2, r2_3, r2_4, r2_5, r2_6, r2_7, r2_8, r2_10, r2_9]
